@@ -473,3 +473,58 @@ Proof.
     destruct (p_process p); destruct (e_process e); cbn in H; auto;
       exfalso; eapply logger_diag_do_writes; eauto.
 Qed.
+
+(* ------------------------------------------------------------------ `--name=value` is `--name value` *)
+Fixpoint str_app (a b : str) : str := match a with SNil => b | SCons c r => SCons c (str_app r b) end.
+Fixpoint has_eq (s : str) : bool := match s with SNil => false | SCons c r => Ascii.eqb c "=" || has_eq r end.
+Definition long_form (name : str) : str := SCons "-" (SCons "-" name).
+Definition long_eq_form (name v : str) : str := SCons "-" (SCons "-" (str_app name (SCons "=" v))).
+
+Lemma split_eq_plain : forall name, has_eq name = false -> split_eq name = (name, None).
+Proof.
+  induction name as [|c r IH]; intro H; [reflexivity|]. cbn in *. apply orb_false_iff in H. destruct H as [H1 H2].
+  rewrite H1, (IH H2). reflexivity.
+Qed.
+Lemma split_eq_joined : forall name v, has_eq name = false -> split_eq (str_app name (SCons "=" v)) = (name, Some v).
+Proof.
+  induction name as [|c r IH]; intros v H; [reflexivity|]. cbn in *. apply orb_false_iff in H. destruct H as [H1 H2].
+  rewrite H1, (IH v H2). reflexivity.
+Qed.
+
+Lemma eq_form_same_as_space_form : forall spec name v rest acc a,
+  find_long spec name = Some a -> a_kind a <> KFlag -> has_eq name = false ->
+  name <> "help" -> name <> "version" -> looks_like_option v = false ->
+  scan spec (long_eq_form name v :: rest) false acc = scan spec (long_form name :: v :: rest) false acc.
+Proof.
+  intros spec name v rest acc a Hf Hk He Hh Hv Hl.
+  assert (Hne : name <> "").
+  { intro E. subst. unfold find_long in Hf. apply find_some in Hf. destruct Hf as [_ Hf].
+    apply andb_true_iff in Hf. destruct Hf as [H1 H2]. apply str_eqb_eq in H2. rewrite H2 in H1. discriminate. }
+  assert (Hh' : str_eqb name "help" = false) by (destruct (str_eqb name "help") eqn:E; [apply str_eqb_eq in E; contradiction|reflexivity]).
+  assert (Hv' : str_eqb name "version" = false) by (destruct (str_eqb name "version") eqn:E; [apply str_eqb_eq in E; contradiction|reflexivity]).
+  assert (Hd1 : str_eqb (long_eq_form name v) "--" = false).
+  { unfold long_eq_form. destruct name; reflexivity. }
+  assert (Hd2 : str_eqb (long_form name) "--" = false).
+  { unfold long_form. destruct name; [contradiction|reflexivity]. }
+  cbn [scan]. rewrite Hd1, Hd2.
+  change (long_body (long_eq_form name v)) with (Some (str_app name (SCons "=" v))).
+  change (long_body (long_form name)) with (Some name).
+  cbv iota. rewrite (split_eq_joined name v He), (split_eq_plain name He).
+  rewrite Hh', Hv', Hf. destruct (a_kind a); try contradiction; rewrite Hl; reflexivity.
+Qed.
+
+Lemma cli_long_names_plain : forall name a, find_long CLI name = Some a ->
+  has_eq name = false /\ name <> "help" /\ name <> "version".
+Proof.
+  intros name a H. unfold find_long in H. apply find_some in H. destruct H as [Hin H].
+  apply andb_true_iff in H. destruct H as [_ H]. apply str_eqb_eq in H. subst name.
+  unfold CLI, RM.Gen.C20Cli.CLI_ARGS in Hin. cbn in Hin.
+  repeat (destruct Hin as [Hin|Hin]; [subst a; cbn; repeat split; discriminate|]). destruct Hin.
+Qed.
+Lemma cli_eq_form_same_as_space_form : forall name v rest acc a,
+  find_long CLI name = Some a -> a_kind a <> KFlag -> looks_like_option v = false ->
+  scan CLI (long_eq_form name v :: rest) false acc = scan CLI (long_form name :: v :: rest) false acc.
+Proof.
+  intros name v rest acc a Hf Hk Hl. destruct (cli_long_names_plain name a Hf) as [He [Hh Hv]].
+  eapply eq_form_same_as_space_form; eauto.
+Qed.
